@@ -151,6 +151,8 @@ def history(max_steps):
         for _ in range(nin):
             p, r = draw(gen.pair(ndims=(nd,), k=len(labels) + 1, derived_weight=3))
             ins.append({"pred": _map_to_labels(p, labels).tolist(), "ref": _map_to_labels(r, labels).tolist(), "layout": draw(st.sampled_from(["C", "C", "F", "neg"]))})
+        if nin >= 2 and draw(st.booleans()):  # one input is another one with prediction and reference exchanged
+            ins[-1] = {"pred": ins[0]["ref"], "ref": ins[0]["pred"], "layout": ins[-1]["layout"]}
         steps = draw(st.lists(step(nev, nin), min_size=3, max_size=max_steps))
         extra = draw(ev_cfg(it, labels))
         return {"input": it, "labels": labels, "dtype": draw(st.sampled_from(["uint8", "uint16"])), "evaluators": evs, "inputs": ins, "steps": steps, "extra": extra}
